@@ -1,21 +1,8 @@
 //! pqv: worker / replay binary of the verification harness. Driven by /verif/check.
 
-mod case;
-mod cost;
-mod fault;
-mod gen;
-mod interp;
-mod model;
-mod ops_basic;
-mod ops_bulk;
-mod ops_iter;
-mod oracle;
-mod queue;
-mod runner;
-mod special;
-mod types;
 
-use runner::*;
+use pqv::runner::*;
+use pqv::{cost, fault, special};
 
 fn arg(args: &[String], name: &str) -> Option<String> {
     args.iter().position(|a| a == name).and_then(|i| args.get(i + 1).cloned())
@@ -83,6 +70,18 @@ fn main() {
         }
         "calibrate" => {
             cost::calibrate(arg(&args, "--cases").and_then(|s| s.parse().ok()).unwrap_or(300), arg(&args, "--tier").as_deref() == Some("thorough"));
+        }
+        "decode" => {
+            // fuzzer artifact (raw bytes) -> JSON case on stdout
+            let file = arg(&args, "--file").expect("--file");
+            let data = std::fs::read(&file).expect("read artifact");
+            match pqv::fuzzdec::decode_case(&data, prop == 10, matches!(prop, 0 | 4 | 10 | 16)) {
+                Ok(c) => println!("{}", c.to_json()),
+                Err(e) => {
+                    eprintln!("cannot decode: {:?}", e);
+                    std::process::exit(2);
+                }
+            }
         }
         "rule" => {
             println!("{}", rule_text(prop));
